@@ -104,6 +104,15 @@ func selftestHooks(r *Run, report func(name string, ok bool, detail string)) {
 		cowNegativeRuns(r)
 		report("MC_Cow: every wrong variant of the copy-on-write mechanism is refuted", r.getCov("cow_wrong_variants_refuted") == int64(len(cowVariants)), "")
 	}()
+	func() {
+		defer func() {
+			if p := recover(); p != nil {
+				report("MC_Roots: every wrong variant of the roots-slice handling is refuted", false, fmt.Sprint(p))
+			}
+		}()
+		rootsNegativeRuns(r)
+		report("MC_Roots: every wrong variant of the roots-slice handling is refuted", r.getCov("roots_wrong_variants_refuted") == int64(len(rootsVariants)), "")
+	}()
 	before = len(r.captured)
 	runCowPool(r, "selftest", &cowGen{Pool: []string{"/a", "/a/b"}, MaxRoutes: 2, MaxSnaps: 1, MaxHist: 60, Variant: "none"}, rand.New(rand.NewSource(1)))
 	report("MC_Cow transitions replay on the real heap without difference", len(r.captured) == before && r.getCov("cow_value_differences") == 0 && r.getCov("cow_sharing_differences") == 0,
